@@ -36,7 +36,7 @@ for p in props:
             os.remove(m.group(1))
     meta.setdefault('checks_run', {})[p] = {
         'exit': rc, 'tier': tier, 'lines': [l[:300] for l in lines if not l.startswith('KNOWN')][:6], 'wall_s': round(time.time() - t0, 1),
-        'caught': rc == 1, 'with_failing_input': rc == 1 and not all('no-failing-input-found' in l for l in lines if l.startswith('VIOLATION')),
+        'caught': rc == 1 and any(l.startswith('VIOLATION') for l in lines), 'with_failing_input': rc == 1 and any(l.startswith('VIOLATION') for l in lines) and not all('no-failing-input-found' in l for l in lines if l.startswith('VIOLATION')),
         'replay_kind': (replay or {}).get('kind'), 'relation': (replay or {}).get('relation_or_op')}
     print(name, p, rc, [l[:160] for l in lines if not l.startswith('KNOWN')][:3])
 json.dump(meta, open(mp, 'w'), indent=1)
